@@ -2330,6 +2330,8 @@ def preprocess_file(
             # This also does not allow for multiline argument list definitions.
             # if match.group(3):
             #     def_name += match.group(3)
+            # The compiled substitution belongs to the old definition
+            def_regexes.pop(def_name, None)
             if (match.group(1) == "define") and (def_name not in defs_tmp):
                 eq_ind = line[match.end(0) :].find(" ")
                 if eq_ind >= 0:
